@@ -7,7 +7,7 @@ INFO = {
         "quick": "range expressions: 1-D templates of <= 3 pieces and 2-D templates of <= 3 outer elements over number tokens that stand for integers in [0,4] (3 tokens: [0,3], more: [0,2]) (utils.auto_int stubbed "
                  "for the tokens), through unravel, unravel_2d and both input forms of _process_ranges; notation: two symbolic digits in decimal, 0x, 0o, 0b, upper/lower case; host:port and "
                  "URIs: hosts {name, IPv4, ::1, 2001:db8::1}, ports symbolic in [0,4] u [65532,65535] or none, addresses symbolic in windows, an integer-valued parameter symbolic; hsfz, doip, isotp",
-        "thorough": "tokens in [0,6] (3 tokens: [0,4], more: [0,3])",
+        "thorough": "tokens in [0,6] (3 tokens: [0,4], more: [0,2])",
     },
     "stubs": ["utils.auto_int maps the tokens A..F to symbolic integers (real auto_int for everything else)", "pydantic config construction runs untraced on the realised values"],
     "outside": ["arbitrary host text (urllib on symbolic text)", "ports / addresses outside the windows", "range expressions mixing comma and blank separators in one element"],
@@ -33,7 +33,7 @@ def obligations(tier, scratch):
         ts = toks(template)
         h = hi if len(ts) < 3 else (3 if len(ts) == 3 else 2)
         if not quick:
-            h = hi if len(ts) < 3 else (4 if len(ts) == 3 else 3)
+            h = hi if len(ts) < 3 else (4 if len(ts) == 3 else 2)
         params = ", ".join(f"{t.lower()}: int" for t in ts)
         pres = "\n".join(f"    pre: 0 <= {t.lower()} <= {h}" for t in ts)
         env = "{" + ", ".join(f"{t!r}: {t.lower()}" for t in ts) + "}"
